@@ -188,8 +188,8 @@ func (c *FnCtx) cone(terms ...string) map[string]bool {
 }
 
 // preamble emits sorts + sliced defs for the given cone.
-func (c *FnCtx) preamble(in map[string]bool) string {
-	body := c.preambleBody(in)
+// assemble puts the fixed prelude and the optional axiom groups the text needs in front of it.
+func assemble(body string) string {
 	var b strings.Builder
 	b.WriteString(prelude)
 	for _, oa := range optionalAxioms {
@@ -199,6 +199,10 @@ func (c *FnCtx) preamble(in map[string]bool) string {
 	}
 	b.WriteString(body)
 	return b.String()
+}
+
+func (c *FnCtx) preamble(in map[string]bool) string {
+	return c.preambleBody(in)
 }
 
 func (c *FnCtx) preambleBody(in map[string]bool) string {
@@ -250,7 +254,7 @@ func (c *FnCtx) queryWith(o *Obligation, extra []string) string {
 	var b strings.Builder
 	b.WriteString(c.preamble(in))
 	fmt.Fprintf(&b, "(assert %s)\n(assert (not %s))\n(check-sat)\n", o.Reach, o.Goal)
-	return b.String()
+	return assemble(b.String())
 }
 
 func (c *FnCtx) queryFor(o *Obligation) string {
@@ -258,7 +262,7 @@ func (c *FnCtx) queryFor(o *Obligation) string {
 	var b strings.Builder
 	b.WriteString(c.preamble(in))
 	fmt.Fprintf(&b, "(assert %s)\n(assert (not %s))\n(check-sat)\n", o.Reach, o.Goal)
-	return b.String()
+	return assemble(b.String())
 }
 
 // ---- helpers ------------------------------------------------------------
